@@ -176,14 +176,22 @@ def _nontrivial(sig, final):
     return len(final[0]) >= 1 and len(sig) >= 3 and span is not None and span[1] > span[0]
 
 
-def _run_flat(detname, sig, chunks, midstream=None):
-    """midstream: list collecting chunk_local_index failures observed *between* chunks (the recorder is asked after
+def _run_flat(detname, sig, chunks, midstream=None, reuse=False):
+    """reuse: every chunk is handed over in ONE buffer that is refilled in place between the calls (a preallocated
+    acquisition buffer): each call still sees exactly its chunk's samples.
+    midstream: list collecting chunk_local_index failures observed *between* chunks (the recorder is asked after
     every chunk, as a consumer that resolves loop indices while the signal is still streaming would do)"""
     det = _new(detname)
     p = 0
+    buf = np.empty(max(chunks), dtype=float) if reuse else None
     for k, length in enumerate(chunks):
         try:
-            det.process(np.array(sig[p:p + length], dtype=float))
+            if reuse:
+                buf[:length] = sig[p:p + length]
+                buf[length:] = -77.0
+                det.process(buf[:length])
+            else:
+                det.process(np.array(sig[p:p + length], dtype=float))
         except Exception as e:  # noqa: BLE001
             raise Raised(type(e).__name__, str(e)[:200])
         p += length
@@ -233,6 +241,17 @@ def _flat_signal(acc, detname, sig):
         case = {"det": detname, "signal": sig, "chunks": comp}
         if d is not None:
             viol.append(("C01/%s/%s" % (detname, d[0]), case, {"observable": d[0], "chunked": d[1], "one_piece": d[2]}))
+        if len(comp) >= 2:
+            # the same composition fed through one reused buffer
+            try:
+                d2 = _diff(_observe(_run_flat(detname, sig, comp, None, reuse=True)), one)
+            except Raised as r:
+                d2 = ("raises-" + r.args[0], None, r.args[1])
+            acc.evaluations += len(comp)
+            acc.transitions += len(comp)
+            if d2 is not None:
+                viol.append(("C01/%s/reused-chunk-buffer/%s" % (detname, d2[0]), dict(case, reuse_buffer=True),
+                             {"observable": d2[0], "chunked_through_one_buffer": d2[1], "one_piece": d2[2]}))
         if detname != "FKMDetector":
             rec = det.recorder
             if rec.chunks.tolist() != comp:
@@ -342,6 +361,12 @@ def replay(case):
             return [("C01/%s/flush-at-reversal/raises-%s" % (detname, type(e).__name__), {"error": str(e)[:200]})]
         d = _diff(_observe(det), one)
         return [("C01/%s/flush-at-reversal/%s" % (detname, d[0]), {"observable": d[0], "flushed_then_continued": d[1], "one_piece": d[2]})] if d else []
+    if case.get("reuse_buffer"):
+        try:
+            d2 = _diff(_observe(_run_flat(detname, sig, comp, None, reuse=True)), one)
+        except Raised as r:
+            d2 = ("raises-" + r.args[0], None, r.args[1])
+        return [("C01/%s/reused-chunk-buffer/%s" % (detname, d2[0]), {"observable": d2[0], "chunked_through_one_buffer": d2[1], "one_piece": d2[2]})] if d2 else []
     mid = []
     try:
         det = _run_flat(detname, sig, comp, mid)
